@@ -339,6 +339,32 @@ class Tracer:
         h["crops"] = crops
         return h
 
+    RESET_FIELDS = ["age_days", "age_days_ns", "aer_days", "irr_cum", "delayed_gdds", "delayed_cds", "pct_lag_phase", "t_early_sen", "gdd_cum",
+                    "day_submerged", "irr_net_cum", "dap", "e_pot", "t_pot", "pre_adj", "crop_mature", "crop_dead", "germination", "premat_senes",
+                    "harvest_flag", "stage", "f_pre", "f_post", "fpost_dwn", "fpost_upp", "h1_cor_asum", "h1_cor_bsum", "f_pol", "s_cor1", "s_cor2",
+                    "growth_stage", "tr_ratio", "r_cor", "canopy_cover", "canopy_cover_adj", "canopy_cover_ns", "canopy_cover_adj_ns", "biomass",
+                    "biomass_ns", "harvest_index", "harvest_index_adj", "ccx_act", "ccx_act_ns", "ccx_w", "ccx_w_ns", "ccx_early_sen", "cc_prev",
+                    "protected_seed", "sumET0EarlySen", "HIfinal", "DryYield", "FreshYield", "aer_days_comp"]
+
+    def _icstate(self):
+        """the state fields that a season start must bring back to their initial values (as text: exact comparison)"""
+        ic = self.model._init_cond
+        out = {}
+        for f in self.RESET_FIELDS:
+            v = getattr(ic, f, None)
+            if isinstance(v, np.ndarray):
+                out[f] = digest(v.astype(float))
+            elif isinstance(v, (bool, np.bool_)):
+                out[f] = "T" if bool(v) else "F"
+            elif v is None:
+                out[f] = "None"
+            else:
+                try:
+                    out[f] = hexf(float(v))
+                except Exception:
+                    out[f] = repr(v)
+        return out
+
     def _clock(self):
         c = self.model._clock_struct
         ic = self.model._init_cond
@@ -429,7 +455,7 @@ class Tracer:
         ic = self.model._init_cond
         ev = {"e": "Initialize", "clock": self._clock(), "phash": self.param_hash(),
               "date": ordinal(self.model._clock_struct.step_start_time),
-              "aliasThini": bool(ic.th is ic.thini)}
+              "aliasThini": bool(ic.th is ic.thini), "ic": self._icstate()}
         self._wp(ev, th=ic.th, pond=ic.surface_storage)
         self.events.append(ev)
         return True
@@ -505,6 +531,7 @@ class Tracer:
             adv["irrNetCum"] = to_num(ic.irr_net_cum)
             adv["gddCum"] = to_num(ic.gdd_cum)
             adv["zroot"] = to_num(ic.z_root)
+            adv["ic"] = self._icstate()
         if self.level != "clock":
             self._wp(adv, th=ic.th, pond=ic.surface_storage)
         self.events.append(adv)
